@@ -464,6 +464,27 @@ func (g *synGen) accrual() string {
 // directive returns the text of one directive (without the line end of its last line unless it is part of the
 // directive as the parser sees it) and its kind tag.
 func (g *synGen) directive() (string, string) {
+	text, kind := g.directive0()
+	// annotations in front of a directive that is not a transaction (the parser accepts and drops them; their text
+	// belongs to the directive's range): seeded change C07-c moved the range start of such an `include`
+	if !strings.HasPrefix(kind, "trx") && g.r.Chance(1, 7) {
+		var pre string
+		switch g.r.Intn(4) {
+		case 0:
+			pre = g.performance() + g.eol()
+		case 1:
+			pre = g.accrual() + g.eol()
+		case 2:
+			pre = g.performance() + g.eol() + g.accrual() + g.eol()
+		default:
+			pre = g.accrual() + g.eol() + g.performance() + g.eol()
+		}
+		return pre + text, "addons+" + kind
+	}
+	return text, kind
+}
+
+func (g *synGen) directive0() (string, string) {
 	switch g.r.Intn(12) {
 	case 0, 1:
 		return g.date() + g.sp() + "open" + g.sp() + g.account(), "open"
@@ -561,7 +582,7 @@ func synJournal(r *RNG) (string, []string) {
 		d, kind := g.directive()
 		kinds = append(kinds, kind)
 		b.WriteString(d)
-		multi := strings.HasPrefix(kind, "trx") || strings.HasPrefix(kind, "balanceN")
+		multi := strings.HasPrefix(kind, "trx") || strings.Contains(kind, "balanceN")
 		last := i == n-1
 		if !multi {
 			if !last || r.Chance(2, 3) {
